@@ -485,7 +485,14 @@ fn work_item(tier: &str, seed: u64, idx: u64, exhaustive: &[String], n_random: u
         let mut rng = Rng::new(rng::run_seed(seed, "C16-random", idx2));
         let flavor = if rng.chance(1, 4) { Flavor::Sparse } else { Flavor::Grammar };
         let e = crongen::gen_expr(&mut rng, flavor);
-        return vec![("random-grammar".into(), e, QUICK)];
+        let mut v = vec![("random-grammar".to_string(), e.clone(), QUICK)];
+        // the same characters with a field boundary moved, decided right after the original and
+        // followed by the original again (field boundaries must matter, whatever was parsed before)
+        if let Some(sh) = crongen::boundary_shifted(&mut rng, &e) {
+            v.push(("boundary-shifted-look-alike".to_string(), sh, LIGHT));
+            v.push(("random-grammar-again".to_string(), e, LIGHT));
+        }
+        return v;
     }
     let idx3 = idx2 - n_random;
     if idx3 < n_bases {
